@@ -406,24 +406,35 @@ def run(ctx):
     problems = []
 
     # the traces recorded alone are compiled once (work/C14/c14_alone_0.vo) and imported by every batch file
-    al_defs, al_terms = [], []
-    for i, pr in enumerate(pairs):
-        if alone[pr]["trace_def"] is not None:
-            alone[pr]["al_name"] = f"al_{i}"
-            al_defs.append(f"Definition al_{i} : list rev_ := {alone[pr]['trace_def']}.")
-            al_terms.append(f"check_case [] al_{i} [] al_{i}")
     IMPORTS = "From Coq Require Import NArith.\nFrom Allfed Require Import Model.Isolation."
-    al_codes = ctx.coq_codes("c14_alone", IMPORTS, al_terms or ["0%nat"], per_file=10 ** 6, defs="\n".join(al_defs))
-    for code, pr in zip(al_codes, [p for p in pairs if alone[p]["trace_def"] is not None]):
+
+    def coq_alone(i):
+        pr = pairs[i]
+        if alone[pr]["trace_def"] is None:
+            return None
+        code = ctx.coq_codes(f"c14_alone{i}", IMPORTS, [f"check_case [] al_{i} [] al_{i}"], per_file=10 ** 6,
+                             defs=f"Definition al_{i} : list rev_ := {alone[pr]['trace_def']}.")[0]
+        alone[pr]["al_name"] = f"al_{i}"
+        alone[pr]["al_file"] = f"c14_alone{i}_0"
+        return code
+
+    with ThreadPoolExecutor(max_workers=lib.NCPU) as ex:
+        al_codes = list(ex.map(coq_alone, range(len(pairs))))
+    for i, code in enumerate(al_codes):
+        pr = pairs[i]
+        if code is None:
+            continue
         ctx.traces += 1
         if code != 0:
             m = {"batch": "alone", "step": 0, "country": pr[0], "preset": pr[1], "kind": "run", "pending": [],
                  "tag": list(alone[pr]["step"]["results"].values())[0]["tag"]}
-            report_trace_problem(ctx, code, m, [run_step(0, [pr[0]], pr[1])], outs[f"alone{pairs.index(pr)}"], canon)
+            report_trace_problem(ctx, code, m, [run_step(0, [pr[0]], pr[1])], outs[f"alone{i}"], canon)
 
     def coq_one(k):
         terms, meta, probs, defs = analyse_batch(ctx, f"batch{k}", outs[f"batch{k}"], batches[k], alone, canon, name_of)
-        codes = ctx.coq_codes(f"c14_b{k}", IMPORTS + "\nRequire Import c14_alone_0.", terms, per_file=10 ** 6, defs=defs)
+        need = sorted({a["al_file"] for a in alone.values() if a.get("al_file") and (a["al_name"] + " ") in " ".join(terms) + " "})
+        codes = ctx.coq_codes(f"c14_b{k}", IMPORTS + "".join(f"\nRequire Import {f}." for f in need), terms, per_file=10 ** 6,
+                              defs=defs)
         return terms, meta, probs, codes
 
     with ThreadPoolExecutor(max_workers=lib.NCPU) as ex:
@@ -468,7 +479,7 @@ def run(ctx):
         ctx.violation(key, what, {"kind": "counterexample", "check": pr["kind"], "presets": PRESETS, "history_A": hist,
                                   "detail": pr})
     ctx.notes.pop("_reported", None)
-    s0 = outs["batch0"]["steps"][0]
+    s0 = [x for x in outs["batch0"]["steps"] if x["kind"] == "run"][0]
     ctx.sample({"history": [(s["countries"], s["preset"]) if s["kind"] == "run" else s["how"] for s in batches[-1]],
                 "alone_digest_of_first_pair": alone[pairs[0]]["sig"][:32], "first_step_headline": (list(s0["results"].values()) or [{}])[0].get("headline")})
     ctx.sample({"overwrites_observed": [{k: v for k, v in s.items() if k in ("how", "ok", "err")}
